@@ -491,6 +491,28 @@ def execute(h):
         return ('ok', r)
 
     def sweep(step):
+        """Every fifth sweep runs in another thread (started and joined at
+        once - no concurrency, the schedule stays sequential): the registry
+        is process-wide, a converter registered here is active there."""
+        if step % 5 != 2:
+            return _sweep(step)
+        import threading
+        box = {}
+
+        def target():
+            try:
+                box['vec'] = _sweep(step)
+            except BaseException as e:      # noqa: handed to the caller
+                box['exc'] = e
+        th = threading.Thread(target=target)
+        th.start()
+        th.join()
+        bump(probes, 'sweep_in_another_thread')
+        if 'exc' in box:
+            raise box['exc']
+        return box['vec']
+
+    def _sweep(step):
         # --- registered converters, most recent first, by identity
         obs_m = list(Money.registered_converters())
         exp_m = list(reversed(mstack))
